@@ -3,6 +3,7 @@ package props
 import (
 	"fmt"
 	"go/ast"
+	"go/token"
 	"go/types"
 	"sort"
 	"strings"
@@ -23,6 +24,7 @@ func runC07(c *an.Ctx) string {
 	r074Walkers(c)
 	r075Body(c)
 	r077AbsoluteAndMemo(c)
+	r079ScopeLists(c)
 	r078RequiredKeys(c, "R07.8", []string{"expr", "http/codegen", "http/codegen/openapi", "http/codegen/openapi/v2", "http/codegen/openapi/v3"})
 	return explanationC07
 }
@@ -397,4 +399,101 @@ func r078RequiredKeys(c *an.Ctx, rule string, dirs []string) {
 		}
 	}
 	c.Floor(rule, n, 1, "required-flag propagation sites")
+}
+
+// r079ScopeLists (R07.9): an OpenAPI security requirement maps each scheme to
+// the list of scopes it requires; the list must be an array, possibly empty. A
+// nil Go slice is rendered `null` by encoding/json (an invalid document) and
+// `[]` by the YAML encoder (so the two renderings differ). In the v2 and v3
+// builders every value stored into a map[string][]string is therefore a fresh
+// slice (make / literal) or a slice assigned under a dominating len(x) > 0 test
+// of that very slice.
+func r079ScopeLists(c *an.Ctx) {
+	const rule = "R07.9"
+	n := 0
+	for _, dir := range []string{"http/codegen/openapi/v2", "http/codegen/openapi/v3"} {
+		for _, f := range c.AllFuncs(dir) {
+			info := f.Pkg.TypesInfo
+			parent := an.ParentMap(f.Decl.Body)
+			// nonNil: expression is a fresh slice, or a field/var guarded by len(e) > 0
+			guarded := func(at ast.Node, e ast.Expr) bool {
+				for p := parent[at]; p != nil; p = parent[p] {
+					is, ok := p.(*ast.IfStmt)
+					if !ok || !(at.Pos() >= is.Body.Pos() && at.End() <= is.Body.End()) {
+						continue
+					}
+					cmp, ok := an.Unparen(is.Cond).(*ast.BinaryExpr)
+					if !ok || cmp.Op != token.GTR {
+						continue
+					}
+					call, ok := an.Unparen(cmp.X).(*ast.CallExpr)
+					if !ok || len(call.Args) != 1 {
+						continue
+					}
+					if id, ok := call.Fun.(*ast.Ident); ok && id.Name == "len" && an.SameExpr(info, call.Args[0], e) {
+						return true
+					}
+				}
+				return false
+			}
+			fresh := func(e ast.Expr) bool {
+				switch x := an.Unparen(e).(type) {
+				case *ast.CompositeLit:
+					return true
+				case *ast.CallExpr:
+					if id, ok := x.Fun.(*ast.Ident); ok && id.Name == "make" {
+						return true
+					}
+				}
+				return false
+			}
+			var nonNil func(at ast.Node, e ast.Expr, depth int) bool
+			nonNil = func(at ast.Node, e ast.Expr, depth int) bool {
+				if fresh(e) || guarded(at, e) {
+					return true
+				}
+				id, ok := an.Unparen(e).(*ast.Ident)
+				if !ok || depth > 2 {
+					return false
+				}
+				o := info.Uses[id]
+				defs := 0
+				all := true
+				ast.Inspect(f.Decl.Body, func(nd ast.Node) bool {
+					as, ok := nd.(*ast.AssignStmt)
+					if !ok || len(as.Lhs) != len(as.Rhs) {
+						return true
+					}
+					for i, l := range as.Lhs {
+						if an.ObjOf(info, l) == o && o != nil {
+							defs++
+							if !nonNil(as, as.Rhs[i], depth+1) {
+								all = false
+							}
+						}
+					}
+					return true
+				})
+				return defs > 0 && all
+			}
+			ast.Inspect(f.Decl.Body, func(nd ast.Node) bool {
+				as, ok := nd.(*ast.AssignStmt)
+				if !ok || len(as.Lhs) != 1 || len(as.Rhs) != 1 {
+					return true
+				}
+				ix, ok := as.Lhs[0].(*ast.IndexExpr)
+				if !ok {
+					return true
+				}
+				t := info.TypeOf(ix.X)
+				if t == nil || t.Underlying().String() != "map[string][]string" {
+					return true
+				}
+				n++
+				c.Check(nonNil(as, as.Rhs[0], 0), rule, fmt.Sprintf("%s#%s", f.Name, an.Src(c.Fset, as)), as.Pos(), "the scope list stored is never nil", "the scope list stored into the security requirement can be a nil slice ("+an.Src(c.Fset, as.Rhs[0])+" is not a fresh slice and not guarded by a len() > 0 test): it is rendered null in openapi.json and [] in openapi.yaml")
+				return true
+			})
+		}
+	}
+	c.Floor(rule, n, 3, "scope lists stored into security requirements")
 }
